@@ -214,8 +214,14 @@ def _reassembly(ctx, S, nrounds):
         if k > 4:
             ctx.count("reassembly.rounds_with_more_than_32_open_messages")
         msgs = []
+        # half of the rounds: every open message has the same device id, stream, function and W-bit (two event reports under
+        # way at once) - the system bytes are the only thing that tells their blocks apart
+        twins = rng.random() < 0.5 and k > 1
+        common = (rng.choice(header_only), rng.randint(0, 0x7FFF), rng.random() < 0.5)
+        if twins:
+            ctx.count("reassembly.rounds_with_messages_that_differ_in_system_bytes_only")
         for _ in range(k):
-            s, f = rng.choice(header_only)
+            s, f = common[0] if twins else rng.choice(header_only)
             system = next(sysgen)
             if completed and rng.random() < 0.25:
                 cand = rng.choice(completed)
@@ -223,6 +229,8 @@ def _reassembly(ctx, S, nrounds):
                     system = cand
                     ctx.count("reassembly.system_bytes_reused_after_completion")
             h = dict(device_id=rng.randint(0, 0x7FFF), rbit=False, stream=s, wbit=rng.random() < 0.5, function=f, system=system)
+            if twins:
+                h.update(device_id=common[1], wbit=common[2])
             blen = rng.choice([0, 1, 243, 244, 245, 487, 488, 489, 244 * 3, 244 * 3 + 1, rng.randint(0, 1500)]) if k <= 4 else rng.choice([245, 300, 489])
             body = rng.randbytes(blen)
             blocks = [wire.secs1_block(wire.secs1_header(**rf), d) for rf, d in
